@@ -201,7 +201,8 @@ func filterOpOnDataType(rec []byte, qValDte *DtypeEnclosure, fop FilterOperator,
 	}
 	switch qValDte.Dtype {
 	case SS_DT_STRING:
-		if len(rec) == 0 {
+		// a back-fill record means the event does not have the column, like an empty rec
+		if len(rec) == 0 || rec[0] == VALTYPE_ENC_BACKFILL[0] {
 			if fop == Equals {
 				return false, nil
 			} else if fop == NotEquals {
@@ -221,7 +222,7 @@ func filterOpOnDataType(rec []byte, qValDte *DtypeEnclosure, fop FilterOperator,
 		}
 		return fopOnString(rec, qValDte, fop, isRegexSearch, isCaseInsensitive)
 	case SS_DT_BOOL:
-		if len(rec) == 0 {
+		if len(rec) == 0 || rec[0] == VALTYPE_ENC_BACKFILL[0] {
 			if fop == Equals {
 				return false, nil
 			} else if fop == NotEquals {
